@@ -15,6 +15,8 @@
 //!   `sk=… pt=… top=<u64 words> seeds=<4 words per cell, storage order> child=<words per cell; …> e=<poly per cell in loop order; …> obj=<cells in storage order: cols;…/…>`
 use std::io::{BufRead, Write};
 
+use crate::cmd_rnd::{Cell, cell_of};
+use crate::cmd_rndb::dist_report;
 use crate::enc_common::*;
 use poulpy_core::{
     EncryptionLayout, GGLWECompressedEncryptSk, GGLWEEncryptSk, GGLWEToGGSWKeyCompressedEncryptSk, GGLWEToGGSWKeyEncryptSk,
@@ -177,6 +179,8 @@ macro_rules! cmp_backend {
             let show_cell = |cell: &GLWE<&[u8]>| -> String { show_vec(cell.data()) };
 
             let mut tail = String::new();
+            let mut dcells: Vec<Cell> = Vec::new();
+            let mut dseeds: Vec<[u8; 32]> = Vec::new();
             let (cells, masks, dec, cellenc, ser_ok, seedwords);
 
             match op {
@@ -203,6 +207,8 @@ macro_rules! cmp_backend {
                     let mut xa2 = Source::new(*cc.seed());
                     module.glwe_encrypt_sk(&mut st, &ptv, &skp, &enc, &mut xe2, &mut xa2, scratch.borrow());
                     cells = 1;
+                    dcells.push(cell_of(&d.to_ref_glwe(), 0));
+                    dseeds.push(*cc.seed());
                     masks = mask_ok(&d.to_ref_glwe(), cc.seed()) as i32;
                     cellenc = (st == d) as i32;
                     dec = cellenc;
@@ -344,6 +350,8 @@ macro_rules! cmp_backend {
                                 let cd = d.at(row, col);
                                 let cs = s.at(row, col);
                                 nc += 1;
+                                dcells.push(cell_of(&cd, row));
+                                dseeds.push(*seed);
                                 nm += mask_ok(&cd, seed) as i32;
                                 nd += (phase_mod(&cd, &sk_cols, b) == phase_mod(&cs, &sk_cols, b)) as i32;
                                 if op == "gglwe" {
@@ -431,6 +439,8 @@ macro_rules! cmp_backend {
                             let cd = d.at(row, col);
                             let cs = s.at(row, col);
                             nc += 1;
+                            dcells.push(cell_of(&cd, row));
+                            dseeds.push(*seed);
                             nm += mask_ok(&cd, seed) as i32;
                             nd += (phase_mod(&cd, &sk_cols, b) == phase_mod(&cs, &sk_cols, b)) as i32;
                             all_seeds.push(show_words(&w));
@@ -459,7 +469,13 @@ macro_rules! cmp_backend {
                 }
                 _ => return "bad-op".to_string(),
             }
-            format!("ok cells={cells} masks={masks} dec={dec} cellenc={cellenc} ser={ser_ok} seedwords={seedwords}{tail}")
+            let refs: Vec<&Cell> = dcells.iter().collect();
+            let sd: Vec<String> = dseeds.iter().map(|s| s.iter().map(|x| format!("{x:02x}")).collect::<String>()).collect();
+            format!(
+                "ok cells={cells} masks={masks} dec={dec} cellenc={cellenc} ser={ser_ok} seedwords={seedwords} {} sd={}{tail}",
+                dist_report(&refs, b),
+                sd.join(",")
+            )
         }
     };
 }
